@@ -447,7 +447,9 @@ def bosonic_circuit(ctx, rule):
         if f.cls is None or f.cls.name != "BosonicModes":
             continue
         src = ast.unparse(f.node)
-        if "hbar" not in src:
+        # functions that never mention hbar are typed as well when they hand data to the typed channel helpers - an hbar that
+        # has been DROPPED from a noise term must not take the function out of the analysis
+        if "hbar" not in src and not any(k.split(".")[-1] + "(" in src for k in BOS_CALL_SIG):
             continue
         decl = dict(BOS_DECL)
         params = set(f.params)
